@@ -1,0 +1,58 @@
+//go:build verif
+
+package bindnode
+
+// Contracts for govc (see /verif/DESIGN.md §5 C20). Comment-only; compiled only
+// under the build tag "verif".
+//
+// Reading a bound node goes through package reflect; the reflect getters used are
+// assumed (in /verif/contracts/external) to write nothing.
+//@ sweep[C20] assigns nothing: _node, _nodeRepr, _prototype, _prototypeRepr, Wrap(), Prototype(), Unwrap(),
+//@   inferSchema(), applyOptions(), fieldNameFromSchema(), newNode(), compatibleKind(), actualKind(), nonPtrVal(), ptrVal(), nonPtrType(),
+//@   unionMember(), reprNode(), reprStrategy(), outboundMappedKey(), inboundMappedKey(), outboundMappedType(), inboundMappedType()
+// A builder is a root slot (the interface-level contract of NewBuilder, restated for the concrete call).
+//@ func buildListpairsField(key, value) (r, err)
+//@   assigns[C20] nothing
+//@   after NewBuilder assume result0.pm == nil && result0.pl == nil
+// User-supplied converters from Go values to data-model values are assumed to be read-only.
+//@ functype converter.customToBool(v) (r, err)
+//@   assigns nothing
+//@ functype converter.customToInt(v) (r, err)
+//@   assigns nothing
+//@ functype converter.customToFloat(v) (r, err)
+//@   assigns nothing
+//@ functype converter.customToString(v) (r, err)
+//@   assigns nothing
+//@ functype converter.customToBytes(v) (r, err)
+//@   assigns nothing
+//@ functype converter.customToLink(v) (r, err)
+//@   assigns nothing
+//@ functype converter.customToAny(v) (r, err)
+//@   assigns nothing
+// The inference helpers record progress in a map their caller made for this one call.
+// (Their frames are assumed, not proved: the progress map is written from a deferred closure.)
+//@ func inferGoType(typ, status, level) (r)
+//@   trusted
+//@   assigns map(status)
+//@ func verifyCompatibility(cfg, seen, goType, schemaType)
+//@   trusted
+//@   assigns map(seen)
+// An Option configures the config object it is handed, nothing else.
+//@ functype Option(cfg)
+//@   assigns region(cfg), foreign
+
+// Iterators are objects made for one call.
+//@ func (*_node).MapIterator() (it)
+//@   requires w != nil
+//@   assigns[C20] nothing
+//@   ensures[C20] it == nil || fresh(it)
+//@ func (*_node).ListIterator() (it)
+//@   requires w != nil
+//@   assigns[C20] nothing
+//@   ensures[C20] it == nil || fresh(it)
+// Looking up a typed map by a non-string key first assembles the key into a value made for this
+// call (assumed: the representation assembler writes only the assembler it is called on and the Go
+// value that assembler holds).
+//@ func (*_assemblerRepr).AssignString(s) (err)
+//@   trusted
+//@   assigns region(w)
